@@ -107,7 +107,9 @@ class ConcHistory(histories.History):
         """leftovers of dead injectors with chosen ages, and pid files"""
         sim, rng = self.sim, self.rng
         now = sim.vnow()
-        for age in (3600, 129600 - 1, 129600, 129600 + 1, 259200):
+        # negative ages: a file stamped a little AFTER the daemon's clock sample (created by an injector later in the same
+        # second-resolution round, or before the clock was stepped back) is young, not 2^64 seconds old
+        for age in (3600, 129600 - 1, 129600, 129600 + 1, 259200, -1, -90):
             p = sim.qpath("pid", "plant.%d" % age)
             with open(p, "wb") as f:
                 f.write(b"Received: planted\nleftover\n")
